@@ -4,6 +4,9 @@ import P0f.Props.C04Http
 import P0f.Generated.Logic.ReadHeaders
 import P0f.Generated.Logic.ReadFirstLine
 import P0f.Generated.Logic.ReadPayload
+import P0f.Generated.Logic.FingerprintHttp
+import P0f.LogicOk.Http
+import P0f.Model.Api
 /-
   `read_headers` and `read_first_line` (C07, C04) against the source text, and `read_payload` composed from the printed parts.
 -/
@@ -143,5 +146,27 @@ theorem source_readPayload (data : Bytes) : Gen.readPayload data = readOutOpt (r
            cases hh : readHeadersGo rest [] with
            | ok hs => rfl
            | error e => cases e <;> rfl)
+
+
+/-- `fingerprint_http` as printed from the source (the printed `read_payload`, the printed search on the HTTP records of the
+    message's direction, the printed `dishonest`) = the model's API function: PacketError for whatever the reader rejects - before the
+    database is looked at -, DatabaseError for an unloaded database, else minor version, matched record and the dishonesty flag
+    (C06, C04, C11) -/
+theorem gen_fingerprintHttp (db : Db) (data : Bytes) :
+    Gen.fingerprintHttp db data = (match apiFpHttp db data with | .ok r => .ok (r.2.1, r.2.2.1, r.2.2.2) | .error e => .error e) := by
+  first
+  | exact rfl
+  | (unfold Gen.fingerprintHttp apiFpHttp
+     rw [source_readPayload]
+     cases hr : readPayload data with
+     | ok isReq minor hs =>
+       simp only [readOutOpt, Option.elim_some]
+       cases isReq <;>
+         (simp only [Bool.false_eq_true, if_false, if_true]
+          cases hi : Db.iter db RecKind.http _ with
+          | error e => rfl
+          | ok l => simp only [Option.elim_some, gen_findHttpMatch, gen_dishonest])
+     | packetError => rfl
+     | indexError => rfl)
 
 end P0f
